@@ -84,13 +84,55 @@ func wordsNeeded(g *gen, o obs, tb *tables) int {
 	return n + 4
 }
 
-// streams and float64 bit patterns are emitted as bytes (Coq parses small numerals much faster than 20-digit ones)
-func words(ws []uint64) string {
+// Case terms use primitive-integer literals only, byte strings packed 7 bytes per literal
+// (decoded by pk in Corr/C09Corr.v): Coq's front end costs ~0.2 ms per literal whatever its size.
+func pkList(b []byte) string {
+	if len(b) == 0 {
+		return "[]"
+	}
+	var sb strings.Builder
+	sb.WriteByte('[')
+	for i := 0; i < len(b); i += 7 {
+		j := i + 7
+		if j > len(b) {
+			j = len(b)
+		}
+		var w uint64
+		for _, x := range b[i:j] {
+			w = w<<8 | uint64(x)
+		}
+		if i > 0 {
+			sb.WriteByte(';')
+		}
+		fmt.Fprintf(&sb, "%d", w)
+	}
+	sb.WriteString("]%uint63")
+	return sb.String()
+}
+
+// "len [w1;...]" for a constructor with (len : int) (ws : list int)
+func pk(b []byte) string { return fmt.Sprintf("%d %s", len(b), pkList(b)) }
+
+// "(len, [w1;...])" for an (int * list int) pair
+func pkPair(b []byte) string { return fmt.Sprintf("(%d%%uint63, %s)", len(b), pkList(b)) }
+
+func wordBytes(ws []uint64) []byte {
 	b := make([]byte, 8*len(ws))
 	for i, w := range ws {
 		binary.BigEndian.PutUint64(b[8*i:], w)
 	}
-	return vh.Bytes(b)
+	return b
+}
+
+func ints[T uint8 | uint16 | uint64 | int](xs []T) string {
+	if len(xs) == 0 {
+		return "[]"
+	}
+	it := make([]string, len(xs))
+	for i, x := range xs {
+		it[i] = fmt.Sprint(x)
+	}
+	return "[" + strings.Join(it, ";") + "]%uint63"
 }
 
 // ---- weights ----
@@ -139,12 +181,12 @@ func randomWeights(c *vh.Ctx) []float64 {
 	return v
 }
 
-func wbits(v []float64) string {
+func wbytes(v []float64) []byte {
 	ws := make([]uint64, len(v))
 	for i, x := range v {
 		ws[i] = math.Float64bits(x)
 	}
-	return words(ws)
+	return wordBytes(ws)
 }
 
 // ---- observation of a ClientHelloSpec ----
@@ -273,6 +315,49 @@ func (o obs) coq() string {
 }
 
 func (o obs) String() string { return o.coq() + " other=" + o.other }
+
+var extTag = map[string]uint64{"ESNI": 0, "ESessionTicket": 1, "ESigAlgs": 2, "EPoints": 3, "ECurves": 4, "EALPN": 5, "EPadding": 6,
+	"EStatus": 7, "ESCT": 8, "EReneg": 9, "EEMS": 10, "EKeyShare": 11, "EPSKModes": 12, "ESupportedVersions": 13, "EALPS": 14}
+
+// enc: the spec as the prefix code of enc_res (Corr/C09Corr.v); ok=false when an extension has no constructor in the model
+func (o obs) enc() ([]uint64, bool) {
+	out := []uint64{1, uint64(o.min), uint64(o.max), uint64(len(o.ciphers))}
+	for _, c := range o.ciphers {
+		out = append(out, uint64(c))
+	}
+	out = append(out, uint64(len(o.exts)))
+	str := func(s string) {
+		out = append(out, uint64(len(s)))
+		for _, b := range []byte(s) {
+			out = append(out, uint64(b))
+		}
+	}
+	for _, e := range o.exts {
+		tag, known := extTag[e.kind]
+		if !known {
+			return nil, false
+		}
+		out = append(out, tag)
+		switch e.kind {
+		case "ESNI":
+			str(e.strs[0])
+		case "EALPN", "EALPS":
+			out = append(out, uint64(len(e.strs)))
+			for _, s := range e.strs {
+				str(s)
+			}
+		case "ESessionTicket", "EPadding", "EStatus", "ESCT", "EEMS":
+		case "EReneg":
+			out = append(out, uint64(e.nums[0]))
+		default:
+			out = append(out, uint64(len(e.nums)))
+			for _, n := range e.nums {
+				out = append(out, uint64(n))
+			}
+		}
+	}
+	return out, true
+}
 
 func (o obs) find(kind string) *oext {
 	for i := range o.exts {
@@ -569,7 +654,7 @@ func variantOf(client string) string {
 func protosCoq(p []string) string {
 	it := make([]string, len(p))
 	for i, s := range p {
-		it[i] = vh.Str(s)
+		it[i] = pkPair([]byte(s))
 	}
 	return vh.List(it)
 }
@@ -586,13 +671,17 @@ func runOne(c *vh.Ctx, r *reporter, tb *tables, g *gen, emit bool) {
 		if variantOf(g.client) != "VOther" {
 			r.fail("generator-error", "generateRandomizedSpec returned an error for a randomized id: "+err1.Error(), g, err1.Error(), "a spec")
 		}
-		res = "(Err 1)"
+		res = ints([]uint64{0, 1})
 	} else {
 		if variantOf(g.client) == "VOther" {
 			r.fail("non-randomized-accepted", "generateRandomizedSpec accepted a non-randomized id", g, o1.String(), "error")
 		}
 		oracle(r, tb, g, o1)
-		res = "(Ok " + o1.coq() + ")"
+		if e, ok := o1.enc(); ok {
+			res = ints(e)
+		} else {
+			res = ints([]uint64{3}) // no such result in the model: the case fails
+		}
 		c.Count(fmt.Sprintf("max_%#x", o1.max))
 	}
 	if !emit {
@@ -607,12 +696,12 @@ func runOne(c *vh.Ctx, r *reporter, tb *tables, g *gen, emit bool) {
 		nw = wordsNeeded(g, o1, tb)
 		c.Count(fmt.Sprintf("stream_words_%02d", nw/10*10))
 	}
-	main := shakeWords(g.seed[:], nw)
-	salted := shakeWords(saltedSeed(g.seed[:], "ALPS"), 1)
+	main := wordBytes(shakeWords(g.seed[:], nw))
+	salted := wordBytes(shakeWords(saltedSeed(g.seed[:], "ALPS"), 1))
 	// weights: [] = id.Weights nil (DefaultWeights, snapshot checked by the CDefaults case); 8 bytes = all 17 equal; else 17*8 bytes
-	wenc := wbits(w)
+	wenc := pk(wbytes(w))
 	if g.w == nil {
-		wenc = "[]"
+		wenc = pk(nil)
 	} else {
 		same := true
 		for _, x := range w {
@@ -621,11 +710,11 @@ func runOne(c *vh.Ctx, r *reporter, tb *tables, g *gen, emit bool) {
 			}
 		}
 		if same {
-			wenc = wbits(w[:1])
+			wenc = pk(wbytes(w[:1]))
 		}
 	}
-	term := fmt.Sprintf("CGen %s %s %s %s %s %s %s", variantOf(g.client), wenc, vh.Str(g.server), protosCoq(g.protos), words(main), words(salted), res)
-	key := fmt.Sprintf("%s/%x/%s/%s/%v/%s", g.client, g.seed[:], g.wname, g.server, g.protos, wbits(w))
+	term := fmt.Sprintf("CGen %s %s %s %s %s %s %s", variantOf(g.client), wenc, pkPair([]byte(g.server)), protosCoq(g.protos), pk(main), pkList(salted), res)
+	key := fmt.Sprintf("%s/%x/%s/%s/%v/%x", g.client, g.seed[:], g.wname, g.server, g.protos, wbytes(w))
 	var sample any
 	if err1 == nil {
 		sample = map[string]any{"client": g.client, "seed": fmt.Sprintf("%x", g.seed[:8]), "weights": g.wname, "spec": o1.coq()}
@@ -662,9 +751,9 @@ func run(c *vh.Ctx) {
 	if emit {
 		it := make([]string, len(tb.rows))
 		for i, row := range tb.rows {
-			it[i] = fmt.Sprintf("(%d, %s)", row.ID, vh.Bool(row.TLS12))
+			it[i] = fmt.Sprintf("(%d%%uint63, %s)", row.ID, vh.Bool(row.TLS12))
 		}
-		c.Case("table", fmt.Sprintf("CTable %s %s", vh.List(it), vh.U16s(tb.tls13)), "table", true, nil)
+		c.Case("table", fmt.Sprintf("CTable %s %s", vh.List(it), ints(tb.tls13)), "table", true, nil)
 		psk, pt := tls.VerifC09Consts()
 		consts := []uint16{tls.VersionTLS10, tls.VersionTLS12, tls.VersionTLS13,
 			uint16(tls.ECDSAWithP256AndSHA256), uint16(tls.PKCS1WithSHA256), uint16(tls.ECDSAWithP384AndSHA384), uint16(tls.PKCS1WithSHA384),
@@ -673,8 +762,9 @@ func run(c *vh.Ctx) {
 			uint16(tls.X25519MLKEM768), uint16(tls.X25519), uint16(tls.CurveP256), uint16(tls.CurveP384), uint16(tls.CurveP521),
 			uint16(pt), uint16(tls.RenegotiateOnceAsClient), uint16(psk),
 			tls.TLS_RSA_WITH_RC4_128_SHA, tls.TLS_ECDHE_ECDSA_WITH_RC4_128_SHA, tls.TLS_ECDHE_RSA_WITH_RC4_128_SHA}
-		c.Case("consts", "CConsts "+vh.U16s(consts), "consts", true, nil)
-		c.Case("defaults", "CDefaults "+wbits(weightsVec(&tls.DefaultWeights)), "defaults", true, nil)
+		c.Case("consts", "CConsts "+ints(consts), "consts", true, nil)
+		c.Case("defaults", "CDefaults "+pkList(wbytes(weightsVec(&tls.DefaultWeights))), "defaults", true, nil)
+		coinSites(c)
 	}
 
 	wsets := []struct {
@@ -724,6 +814,27 @@ func run(c *vh.Ctx) {
 	c.Extra["oracle_failures_by_key"] = r.seen
 }
 
+// coinSites: the id.Weights.X references in the source of generateRandomizedSpec, in order, as field indices of
+// tls.Weights, followed by 100 + the number of FlipWeightedCoin calls there. Must equal the coin table of
+// Proofs/RandomizedC.v: a coin added to the code without a row in the table is a mismatch.
+func coinSites(c *vh.Ctx) {
+	refs, flips := tls.VerifC09WeightRefs()
+	idx := map[string]int{}
+	wt := reflect.TypeOf(tls.Weights{})
+	for i := 0; i < wt.NumField(); i++ {
+		idx[wt.Field(i).Name] = i
+	}
+	if wt.NumField() != nWeights {
+		c.Fail("weights-struct", "tls.Weights no longer has 17 fields", wt.NumField(), wt.NumField(), nWeights)
+	}
+	seq := make([]int, 0, len(refs)+1)
+	for _, r := range refs {
+		seq = append(seq, idx[r])
+	}
+	seq = append(seq, 100+flips)
+	c.Case("coins", "CCoins "+ints(seq), "coins", true, map[string]any{"weight_refs": refs, "flip_calls": flips})
+}
+
 // the helpers called directly, on lists and weights the generator itself never passes
 func helpers(c *vh.Ctx, tb *tables) {
 	n := c.N / 4
@@ -758,14 +869,14 @@ func helpers(c *vh.Ctx, tb *tables) {
 		}
 		in := append([]uint16(nil), s...)
 		out := tls.VerifRemoveRandomCiphers(&seed, in, w)
-		c.Case("removeRandomCiphers", fmt.Sprintf("CRemove %s %s %s %s", words(shakeWords(seed[:], ln+1)), vh.U16s(s), wbits([]float64{w}), vh.U16s(out)),
+		c.Case("removeRandomCiphers", fmt.Sprintf("CRemove %s %s %s %s", pk(wordBytes(shakeWords(seed[:], ln+1))), ints(s), pkList(wbytes([]float64{w})), ints(out)),
 			fmt.Sprintf("rm/%x/%v/%x", seed[:], s, math.Float64bits(w)), ln > 1, nil)
 		if len(out) > len(s) || (ln > 0 && (len(out) == 0 || out[0] != s[0])) {
 			c.Fail("remove-first-suite", "removeRandomCiphers dropped the first suite or grew the list", map[string]any{"seed": fmt.Sprintf("%x", seed[:]), "s": s, "w": fmt.Sprint(w)}, out, "first suite kept")
 		}
 		in = append([]uint16(nil), s...)
 		out4 := tls.VerifRemoveRC4Ciphers(in)
-		c.Case("removeRC4Ciphers", fmt.Sprintf("CRC4 %s %s", vh.U16s(s), vh.U16s(out4)), fmt.Sprintf("rc4/%v", s), ln > 0, nil)
+		c.Case("removeRC4Ciphers", fmt.Sprintf("CRC4 %s %s", ints(s), ints(out4)), fmt.Sprintf("rc4/%v", s), ln > 0, nil)
 		for _, x := range out4 {
 			if has(rc4, x) {
 				c.Fail("rc4-kept", "removeRC4Ciphers left an RC4 suite", s, out4, "no RC4")
@@ -778,7 +889,7 @@ func helpers(c *vh.Ctx, tb *tables) {
 				c.Fail("shuffled-error", "shuffledCiphers failed", fmt.Sprintf("%x", seed[:]), err.Error(), "nil")
 				continue
 			}
-			c.Case("shuffledCiphers", fmt.Sprintf("CShuffled %s %s", words(shakeWords(seed[:], len(tb.rows)+6)), vh.U16s(sh)), fmt.Sprintf("sh/%x", seed[:]), true, nil)
+			c.Case("shuffledCiphers", fmt.Sprintf("CShuffled %s %s", pk(wordBytes(shakeWords(seed[:], len(tb.rows)+6))), ints(sh)), fmt.Sprintf("sh/%x", seed[:]), true, nil)
 		}
 	}
 }
